@@ -227,7 +227,8 @@ class KidModel:
         return out
 
     def canon(self, st):
-        return (self.fixture, canon_obj(st["key"]), canon_obj(st["params"]), st["set"] is not None)
+        from ..history import canon_state
+        return (self.fixture, canon_state(st["key"], st["params"], st["set"], prefix="joserfc.no-module-state"))
 
     def bucket(self, obs):
         return f"{obs['op']}:{'kid' if obs['kid_after'] else 'nokid'}"
@@ -284,9 +285,26 @@ def h_generated(ctx):
     from joserfc.jwk import JWKRegistry, KeySet
     kind = ctx.choose("kind", [("oct", 128), ("oct", 256), ("RSA", 1024), ("EC", "P-256"), ("EC", "P-384"), ("EC", "P-521"),
                                ("EC", "secp256k1"), ("OKP", "Ed25519"), ("OKP", "Ed448"), ("OKP", "X25519"), ("OKP", "X448")])
-    via = ctx.choose("via", ["generate_key", "generate_key_set", "generate_key_set_shared_params"])
+    via = ctx.choose("via", ["generate_key", "generate_key_set", "generate_key_set_shared_params", "generate_key-with-own-kid", "class.generate_key-with-own-kid", "public-with-own-kid"])
     rep = ctx.choose("repeat", range(3 if not config.thorough() else 12))
     vs = []
+    own = None
+    if via.endswith("own-kid"):
+        from joserfc.jwk import OctKey, RSAKey, ECKey, OKPKey
+        own = "mine-" + str(rep)
+        params = {"kid": own, "use": "sig"}
+        if via == "generate_key-with-own-kid":
+            keys = [JWKRegistry.generate_key(kind[0], kind[1], params, auto_kid=True)]
+        elif via == "class.generate_key-with-own-kid":
+            keys = [{"oct": OctKey, "RSA": RSAKey, "EC": ECKey, "OKP": OKPKey}[kind[0]].generate_key(kind[1], params, auto_kid=True)]
+        else:
+            if kind[0] == "oct":
+                return Outcome("n/a", [], nontrivial=None)
+            keys = [JWKRegistry.generate_key(kind[0], kind[1], params, private=False, auto_kid=True)]
+        for k in keys:
+            if k.kid != own or k.as_dict().get("kid") != own:
+                vs.append(viol(f"auto_kid overwrites the kid the caller gave to a generated {kind[0]} key", f"{kind} via {via}: kid {k.kid!r}, given {own!r}"))
+        return Outcome("gen-ok" if not vs else "gen-bad", vs, nontrivial=(kind, via, rep))
     if via == "generate_key":
         keys = [JWKRegistry.generate_key(kind[0], kind[1], auto_kid=True)]
     elif via == "generate_key_set":
